@@ -760,6 +760,43 @@ Proof.
   destruct (H Hs) as (_ & _ & _ & H4). eexists. apply H4. exact Hf.
 Qed.
 
+(* answered exactly once, by call id, in output order: the call ids answered by the next request *)
+Lemma out_ids_app a b : out_ids (a ++ b) = out_ids a ++ out_ids b.
+Proof. unfold out_ids. apply flat_map_app. Qed.
+
+Lemma out_ids_filter l : out_ids (filter is_out l) = out_ids l.
+Proof.
+  unfold out_ids. induction l as [|i r IH]; cbn [filter flat_map]; [reflexivity|].
+  destruct i; cbn [is_out flat_map app]; rewrite ?IH; reflexivity.
+Qed.
+
+Lemma out_ids_outputs st xs : out_ids (outputs_for st xs) = map c_id (map x_call xs).
+Proof.
+  unfold out_ids, outputs_for. induction xs as [|x r IH]; cbn [map flat_map out_item app]; [reflexivity|].
+  rewrite IH. reflexivity.
+Qed.
+
+Lemma out_ids_fmsg g : out_ids (fmsg g) = [].
+Proof. unfold fmsg. destruct (g_followup g); reflexivity. Qed.
+
+Lemma answered_by_call_id g valid tool prompt init script pre it1 it2 post :
+  res_iters (run g valid tool prompt init script) = pre ++ it1 :: it2 :: post ->
+  (g_stateless g = false -> out_ids (items_of (it_req it2)) = map c_id (it_calls it1)) /\
+  (g_stateless g = true ->
+     out_ids (items_of (it_req it2)) = out_ids (items_of (it_req it1)) ++ map c_id (it_calls it1)) /\
+  (g_fixed g = FIXED -> NoDup (map c_id (it_calls it1))).
+Proof.
+  intros E. pose proof (answered_next_request _ _ _ _ _ _ _ _ _ _ E) as (A1 & _ & A3 & A4).
+  split; [|split].
+  - intros Hst. destruct (A3 Hst) as (B1 & _). unfold items_of. rewrite B1.
+    rewrite out_ids_app, out_ids_outputs, out_ids_fmsg, app_nil_r, A1. reflexivity.
+  - intros Hst. destruct (A4 Hst) as (_ & _ & B3 & _).
+    rewrite <- (out_ids_filter (items_of (it_req it2))), B3, out_ids_app, out_ids_filter, out_ids_outputs, A1.
+    reflexivity.
+  - intros Hfx. eapply call_ids_distinct; [exact Hfx|].
+    rewrite E. apply in_or_app. right. left. reflexivity.
+Qed.
+
 (* ---------------------------------------------------------------- witnesses *)
 Definition w_str (x : String.string) : str := lit x.
 Definition w_done (oi : N) (id cid name args : String.string) : json :=
